@@ -42,7 +42,10 @@ type TrackerPlan struct {
 	Torrents int             `json:"torrents"`
 	Cmds     []TCmd          `json:"cmds"`
 	WithSeed bool            `json:"with_seed"` // torrent 0 can complete
-	Dur      time.Duration   `json:"dur"`
+	// Leech: a peer keeps downloading torrent 0 from the client (upload counters move; a stop
+	// can land while a block is being written to it)
+	Leech bool          `json:"leech,omitempty"`
+	Dur   time.Duration `json:"dur"`
 }
 
 type torState struct {
@@ -53,6 +56,17 @@ type torState struct {
 	runID    int
 	peerID   *[20]byte // as seen in a peer handshake
 	complete bool
+	// upload ground truth: payload bytes of blocks scripted peers received, and the client's
+	// own counters once a run has fully stopped (run id -> Stats().Bytes.Uploaded)
+	received      int64
+	finalUploaded map[int]int64
+	stoppedAnn    []stoppedAnn
+}
+
+type stoppedAnn struct {
+	tracker  string
+	runID    int
+	uploaded int64
 }
 
 func RunTrackers(env *Env, plan *TrackerPlan) {
@@ -169,6 +183,18 @@ func RunTrackers(env *Env, plan *TrackerPlan) {
 			mu.Unlock()
 		}}
 		seed.Start()
+		if plan.Leech {
+			lb := refbt.Behavior{Fast: env.R.Chance(0.5), Ext: true, Have: refbt.NewBits(ts.T.NumPieces), Announce: "auto", Leech: true, LeechInterested: true, LeechPipeline: 4, MetaMode: "honest"}
+			leech := &PeerActor{Spec: PeerSpec{Name: "leech", B: lb, Mode: "dial", Redial: 3 * time.Second}, Host: env.NewHost("leech", "peer"), T: ts.T, Seed: env.R.Uint64(), NoChecks: true}
+			leech.SutAddr = seed.SutAddr
+			leech.Hooks = refbt.Hooks{OnPiece: func(p *refbt.Peer, m refbt.Msg, ok bool) {
+				mu.Lock()
+				ts.received += int64(len(m.Data))
+				mu.Unlock()
+				simrt.Count("probe.tracker.block_uploaded", 1)
+			}}
+			leech.Start()
+		}
 		go func() {
 			<-ts.tor.NotifyComplete()
 			mu.Lock()
@@ -264,6 +290,7 @@ func RunTrackers(env *Env, plan *TrackerPlan) {
 				if !st.acceptedOK {
 					simrt.Violate("C15", "event.stopped_without_accept", "tracker %s: 'stopped' sent although no earlier announce of this run was accepted by it", ta.Name)
 				}
+				ts.stoppedAnn = append(ts.stoppedAnn, stoppedAnn{tracker: ta.Name, runID: ts.runID, uploaded: a.Uploaded})
 			case "":
 				if st.last == nil {
 					simrt.Violate("C15", "event.first_not_started", "tracker %s: first announce of the run has no event", ta.Name)
@@ -351,13 +378,43 @@ func RunTrackers(env *Env, plan *TrackerPlan) {
 				}
 				mu.Unlock()
 				sut.In(func() { ts.tor.Start() })
-			case "stop":
+			case "stop", "stop_uploading":
+				var before torrent.Stats
+				sut.In(func() { before = ts.tor.Stats() })
+				if c.Kind == "stop_uploading" && before.Status != torrent.Stopped {
+					// stop while a block is on its way to the leech
+					mu.Lock()
+					r0 := ts.received
+					mu.Unlock()
+					for i := 0; i < 3000; i++ {
+						mu.Lock()
+						moved := ts.received > r0
+						mu.Unlock()
+						if moved {
+							simrt.Count("probe.tracker.stop_while_uploading", 1)
+							break
+						}
+						time.Sleep(20 * time.Millisecond)
+					}
+				}
+				mu.Lock()
+				run := ts.runID
+				mu.Unlock()
 				sut.In(func() { ts.tor.Stop() })
 				// wait for Stopped so that run boundaries are unambiguous
 				for i := 0; i < 400; i++ {
 					var st torrent.Stats
 					sut.In(func() { st = ts.tor.Stats() })
 					if st.Status == torrent.Stopped {
+						if before.Status != torrent.Stopped {
+							// nothing is uploaded while stopped: these are the counters of the run
+							mu.Lock()
+							if ts.finalUploaded == nil {
+								ts.finalUploaded = map[int]int64{}
+							}
+							ts.finalUploaded[run] = st.Bytes.Uploaded
+							mu.Unlock()
+						}
 						break
 					}
 					time.Sleep(100 * time.Millisecond)
@@ -551,6 +608,18 @@ func RunTrackers(env *Env, plan *TrackerPlan) {
 			}
 		}
 	}
+	// C15: the 'stopped' announce of a run carries the torrent's final counters (all peers are
+	// closed before it is built, nothing moves until the next start)
+	for ti, ts := range tors {
+		for _, sa := range ts.stoppedAnn {
+			if want, ok := ts.finalUploaded[sa.runID]; ok && sa.uploaded != want {
+				simrt.Violate("C15", "announce.stopped_counters", "tracker %s, torrent %d: 'stopped' carries uploaded=%d, the torrent's upload counter after that stop is %d", sa.tracker, ti, sa.uploaded, want)
+			}
+			if sa.uploaded > 0 {
+				simrt.Count("probe.tracker.stopped_with_upload", 1)
+			}
+		}
+	}
 	// replies under a wrong transaction id / garbage must never be used: their peer is never dialled
 	for _, d := range env.Net.Dials {
 		if strings.HasPrefix(d.To, "10.251.") {
@@ -607,10 +676,12 @@ func genReply(r *simrt.Rand, udp bool) Reply {
 		rep.Kind = "short"
 	case k < 92 && udp:
 		rep.Kind = "dup"
+	case k < 100 && udp && r.Chance(0.5):
+		rep.Kind = "stray"
 	default:
 		rep.Kind = "ok"
 	}
-	if rep.Kind == "ok" || rep.Kind == "dup" || rep.Kind == "wrongtx" || rep.Kind == "short" {
+	if rep.Kind == "ok" || rep.Kind == "dup" || rep.Kind == "stray" || rep.Kind == "wrongtx" || rep.Kind == "short" {
 		if r.Chance(0.8) {
 			rep.Interval = i64(simrt.Pick(r, ivs))
 		}
@@ -631,6 +702,7 @@ func init() {
 		tp := &TrackerPlan{Layout: l, Net: netCfg(r), Torrents: r.Range(1, 3), WithSeed: r.Chance(0.6)}
 		tp.Net.UDPLoss = simrt.Pick(r, []float64{0, 0, 0.1, 0.3})
 		tp.Net.UDPDup = simrt.Pick(r, []float64{0, 0.1})
+		tp.Net.UDPBurstP = simrt.Pick(r, []float64{0, 0.5, 1})
 		k := Knobs{DisableOutgoingEncryption: true}
 		k.TrackerMinAnnounceInterval = simrt.Pick(r, []time.Duration{0, 10 * time.Second, time.Minute})
 		k.TrackerStopTimeout = simrt.Pick(r, []time.Duration{0, time.Second, 5 * time.Second})
@@ -668,6 +740,21 @@ func init() {
 		}
 		for i := 0; i < r.Range(0, 8); i++ {
 			tp.Cmds = append(tp.Cmds, TCmd{Gap: r.Dur(0, tp.Dur/10), Tor: r.Intn(tp.Torrents), Kind: simrt.Pick(r, []string{"stop", "start", "announce", "announce"})})
+		}
+		if tp.WithSeed && r.Chance(0.4) {
+			// uploads to a leech over a narrow connection, stops that land inside a block
+			tp.Leech = true
+			tp.Net.Window = 4096
+			for i := range tp.Cmds {
+				if tp.Cmds[i].Kind == "stop" && tp.Cmds[i].Tor == 0 {
+					tp.Cmds[i].Kind = "stop_uploading"
+				}
+			}
+			// the leech reconnects with nothing after every start: stop as soon as a block moved
+			for j := 0; j < r.Range(1, 3); j++ {
+				tp.Cmds = append(tp.Cmds, TCmd{Gap: r.Dur(0, 30*time.Second), Tor: 0, Kind: "start"}, TCmd{Gap: r.Dur(0, 2*time.Second), Tor: 0, Kind: "stop_uploading"})
+			}
+			tp.Cmds = append(tp.Cmds, TCmd{Gap: r.Dur(0, 10*time.Second), Tor: 0, Kind: "start"})
 		}
 		p.Trackers = tp
 	}, Run: func(env *Env, p *Plan) { RunTrackers(env, p.Trackers) }})
